@@ -71,6 +71,14 @@ def gen_one(rng):
             if case["after_hook"] and rng.random() < 0.4:
                 budget = sc["retry"][0] if sc["retry"] else 0
                 sc["afails"] = min(rng.choice([1, 1, 2]), budget + 1)
+    # released steps do not complete in lock-step: some suspend 1-3 more times before they return
+    for it in case["items"]:
+        for sc in it.get("scenarios", []):
+            sc["yields"] = rng.choice([0, 0, 1, 2, 3])
+    # the after hook takes (virtual) time: it waits for a gate of its own, clock ticks may pass meanwhile
+    case["after_gated"] = bool(case.get("after_hook")) and rng.random() < 0.5
+    # let real time pass now and then while the runner is quiescent (a hooked runner keeps no real-time timer)
+    case["real_wait"] = rng.random() < 0.08
     # a user `which_scenario` classifier (classifying like the default one) installed last in the builder chain
     case["custom_which"] = rng.random() < 0.3
     # a before hook that panics (eagerly, in the hook function itself, or inside its future) in the first attempts
@@ -171,7 +179,8 @@ def describe(case, res):
             "delay=%s" % any(sc["retry"] and sc["retry"][1] for sc in scs),
             "after_hook_failure=%s" % any(sc.get("afails") for sc in scs),
             "before_hook_failure=%s" % any(sc.get("bfails") for sc in scs),
-            "custom_which=%s" % bool(case.get("custom_which")),
+            "custom_which=%s" % bool(case.get("custom_which")), "after_gated=%s" % bool(case.get("after_gated")),
+            "real_wait=%s" % bool(case.get("real_wait")), "step_yields=%s" % any(sc.get("yields") for sc in scs),
             "scen=%s" % ("0" if not scs else "<3" if len(scs) < 3 else "<6" if len(scs) < 6 else ">=6")]
     if res is not None:
         keys.append("hang=%s" % bool(res.get("hang")))
@@ -179,7 +188,7 @@ def describe(case, res):
 
 
 RULE = ("cases = 1-3 features (0-3 top-level scenarios, 0-2 rules of 1-2 scenarios, empty rules) and 0-2 parser errors, each "
-        "scenario serial or not (tag on the scenario, or inherited from its rule or feature), with @retry(N) N in 0..2 optionally .after(30ms), failing its first k attempts, 1-2 gated steps; in 35% of the cases an after hook that panics in the first 1-2 attempts of "
+        "scenario serial or not (tag on the scenario, or inherited from its rule or feature), with @retry(N) N in 0..2 optionally .after(30ms), failing its first k attempts, 1-2 gated steps (a released step suspends 0-3 more times before it returns); in 35% of the cases an after hook that panics in the first 1-2 attempts of "
         "40% of the scenarios (a failed after hook alone makes the attempt a failed one), in 25% a before hook that panics — "
         "eagerly or inside its future — in the first 1-2 attempts of 30% of the scenarios (no step of that attempt runs); "
         "a custom `which_scenario` classifier installed last in the builder chain in 30%; concurrency from CLI (none/1/2/3) and builder (default 64 / unlimited / 1 / 2 / 4), fail-fast from CLI and/or builder; "
